@@ -26,7 +26,7 @@ import common
 from common import xr, xvec, from_xvec
 
 ID = "C20"
-TARGETS = ["Proofs.C20"]
+TARGETS = ["Proofs.C20", "Proofs.C20Rich"]
 GEN_PREFIXES = []
 THEOREMS = {
     "Proofs.C20": ["VerifModel.C20." + t for t in [
@@ -36,6 +36,8 @@ THEOREMS = {
         "C20_quantile", "C20_quantile_single", "C20_quantile_def", "C20_quantile_file",
         "C20_pit", "C20_pit_missing_obs",
         "C20_expand", "C20_expand_nowhere_else", "C20_expand_times", "C20_window_file", "C20_preserve"]],
+    "Proofs.C20Rich": ["VerifModel.C20." + t for t in [
+        "C20_preserve_partial", "C20_preserve_full_iff", "C20_preserve_negation", "C20_expand_never_written"]],
 }
 TRUSTED_BASE = [
     "Lean 4.33 kernel; axioms propext, Classical.choice, Quot.sound only",
@@ -55,8 +57,14 @@ ASSUMPTIONS = [
     "input times are non-negative whole seconds, -i hours give whole seconds; window lengths >= 1",
     "ensembles have 1..6 members for ens2prob; quantile levels in [0,1] whose binary64 value lies on the same side "
     "of every grid point i/(M-1) as NumPy's linspace value (checked per op; the model is exact, not rounded)",
-    "fields a script does not write at all (accumulate/window drop ensemble/cdf/pit columns, expandverif leaves "
-    "fcst unwritten because the time/lead grid changes) are read as 'not carried over', not as 'not preserved'",
+    "fields a script does not write at all are now JUDGED (streams pres.*): ensemble, stored pit / cdf / x and other score "
+    "fields are dropped by all four scripts and expandverif never writes the fcst / -t / -q variables it creates — known "
+    "findings accumulate- / window- / ens2prob- / expandverif-drops-fields, expandverif-never-written; the x0 / x1 attributes "
+    "and times after 2038 are preserved since the repairs fix_scripts_x0x1 / fix_time_type",
+    "units: the scripts write units.replace('$', '') — a units attribute that itself contains dollar signs loses them; the "
+    "global attribute is spelled `Convensions` by three scripts: neither is in the property's list (times, lead times, "
+    "location metadata, fields) and both are modelled as they are",
+    "rich files (pres.*) are NetCDF only; location metadata is compared after rounding to the f4 the scripts store",
     "the CDF at t is the fraction of non-missing members strictly below t (consistent with PIT = fraction below "
     "the observation)",
     "accumulate and window on a file without obs or without fcst are modelled (C20_accumulate_file, C20_window_file): "
@@ -73,7 +81,10 @@ RULE = ("seeded random files: 1-4 times x 1-6 lead times x 1-3 locations, values
         "is judged against the threshold/level stored at the same index of the coordinate variable, and "
         "monotonicity is read along the sorted coordinate; expandverif: -i hour lists (or default), "
         "-lt lists partly outside the input, unsorted and overlapping times; window: files with both fields and files "
-        "that lack obs, fcst or both; an op is non-trivial if the transformed "
+        "that lack obs, fcst or both; pres.acc / pres.win / pres.e2p / pres.exp: NetCDF files holding any subset of pit, stored "
+        "cdf / x, other score fields, an ensemble, x0 / x1 (every fifth with station id 100000, latitude 60.123, units with "
+        "dollar signs, times beyond 2^31 stored as f8), expandverif with -t / -q and without -lt; e2p.nofield: ensemble files "
+        "without obs / fcst / both (with -p: error message); acc.badw: -w 0 and negative; an op is non-trivial if the transformed "
         "field holds a finite number")
 EXHAUSTIVE = {"quick": False, "thorough": False}
 EXHAUSTIVE_NOTE = "random; for each generated series length every window length 1..len+1 is visited over the stream"
@@ -83,7 +94,8 @@ LEVEL_TEXT = ("Lean theorems over a hand-written model of the script kernels: tr
               "(file level: slice i of cdf/x belongs to entry i of the -r/-q list in whatever order it was typed) "
               "monotone, inside the member range and equal to the floor rule, PIT = fraction below (for non-missing "
               "observations), valid-time matching places the first stored observation and nothing else, metadata "
-              "copied. The model is tied to the real scripts by running them on generated NetCDF and text files.")
+              "copied; of everything else a file can hold the scripts carry the x0 / x1 attributes only (C20_preserve_partial; the "
+              "full statement holds iff the file holds nothing else, C20_preserve_full_iff; negation on a witness per script). The model is tied to the real scripts by running them on generated NetCDF and text files.")
 TECHNIQUE = "Lean 4 proof over a hand-written model; differential correspondence against the real scripts run on generated files"
 
 FMTS = ["nc", "ncm", "txt", "txtd"]
@@ -337,6 +349,8 @@ def impl(op):
         vals = _field(r, "obs").split(",")
         return vals[times.index(str(int(ot)))] if str(int(ot)) in times else "absent"
 
+    if k == "pres":
+        return _impl_pres(a)
     # ---- file-level ops
     nopt = {"acc": 4, "win": 3, "e2p": 4, "exp": 3, "t2n": 1}[k]
     f = VF(a[nopt:nopt + NFILE])
@@ -383,6 +397,158 @@ def impl(op):
     finally:
         _cleanup(ipath, opath)
     raise ValueError(op)
+
+
+# ------------------------------------------------------------------ rich files: everything a verif NetCDF file can hold
+# RFILE = FILE (13 tokens, fmt nc) + <pit|none> <thr|-> <cdf|-> <qlv|-> <x|-> <other|-> <x0|-> <x1|-> <tfmt>
+#   other = name:values;name:values   (3-D fields under other names)     tfmt = i4 | f8 (type of the time variable)
+# ops:   pres acc <axis> <w|-> <0|1> RFILE      pres win <bin> <r> RFILE
+#        pres e2p <thr|-> <qs|-> <0|1> RFILE    pres exp <inits|def> <oleads> <t|-> <q|-> RFILE
+# reply: the reply of the plain op + ens= thr= cdf= qlv= x= pit= other=<names> o.<name>=… x0= x1=   (none = not in the output)
+NRFILE = NFILE + 9
+PRES_NOPT = {"acc": 3, "win": 2, "e2p": 3, "exp": 4}
+
+
+class RF(VF):
+    def __init__(self, a):
+        VF.__init__(self, a[:NFILE])
+        T, L, S = self.shape
+        e = a[NFILE:NRFILE]
+        self.pit = None if e[0] == "none" else np.array(from_xvec(e[0]), float).reshape(T, L, S)
+        self.thr = from_xvec(e[1])
+        self.cdf = np.array(from_xvec(e[2]), float).reshape(T, L, S, len(self.thr)) if self.thr else None
+        self.qlv = from_xvec(e[3])
+        self.x = np.array(from_xvec(e[4]), float).reshape(T, L, S, len(self.qlv)) if self.qlv else None
+        self.other = {}
+        if e[5] != "-":
+            for item in e[5].split(";"):
+                n, v = item.split(":")
+                self.other[n] = np.array(from_xvec(v), float).reshape(T, L, S)
+        self.x0 = None if e[6] == "-" else common.from_xr(e[6])
+        self.x1 = None if e[7] == "-" else common.from_xr(e[7])
+        self.tfmt = e[8]
+
+
+def _write_rich(path, f):
+    import netCDF4
+    d = netCDF4.Dataset(path, "w")
+    T, L, S = f.shape
+    d.createDimension("time", None)
+    d.createDimension("leadtime", L)
+    d.createDimension("location", S)
+    d.createVariable("time", f.tfmt, ("time",))[:] = np.array(f.times, dtype="i8" if f.tfmt != "f8" else float)
+    d.createVariable("leadtime", "f4", ("leadtime",))[:] = f.leads
+    d.createVariable("location", "f8", ("location",))[:] = np.array(f.ids, float)
+    d.createVariable("lat", "f8", ("location",))[:] = f.lats
+    d.createVariable("lon", "f8", ("location",))[:] = f.lons
+    d.createVariable("altitude", "f4", ("location",))[:] = f.elevs
+    dims3 = ("time", "leadtime", "location")
+    for nm, arr in [("obs", f.obs), ("fcst", f.fcst), ("pit", f.pit)] + sorted(f.other.items()):
+        if arr is not None:
+            d.createVariable(nm, "f4", dims3)[:] = arr
+    if f.M > 0:
+        d.createDimension("ensemble_member", f.M)
+        d.createVariable("ensemble", "f4", dims3 + ("ensemble_member",))[:] = f.ens
+    if f.thr:
+        d.createDimension("threshold", len(f.thr))
+        d.createVariable("threshold", "f4", ("threshold",))[:] = f.thr
+        d.createVariable("cdf", "f4", dims3 + ("threshold",))[:] = f.cdf
+    if f.qlv:
+        d.createDimension("quantile", len(f.qlv))
+        d.createVariable("quantile", "f4", ("quantile",))[:] = f.qlv
+        d.createVariable("x", "f4", dims3 + ("quantile",))[:] = f.x
+    d.long_name = f.name
+    d.units = f.units
+    if f.x0 is not None:
+        d.x0 = f.x0
+    if f.x1 is not None:
+        d.x1 = f.x1
+    d.Conventions = "verif_1.0.0"
+    d.close()
+
+
+REGULAR_VARS = ["time", "leadtime", "location", "lat", "lon", "altitude", "obs", "fcst", "pit", "ensemble", "threshold",
+                "cdf", "quantile", "x"]
+
+
+def _read_rich(path):
+    """the plain reply plus every other thing the output file holds"""
+    import netCDF4
+    base = _read_out(path)
+    d = netCDF4.Dataset(path, "r")
+    try:
+        ids = _arr(d.variables["location"])
+        order = np.argsort(ids, kind="stable")
+        # the time variable as stored (the plain reply prints int(x))
+        out = [base]
+
+        def var(name, key):
+            if name not in d.variables:
+                return "%s=none" % key
+            a = _arr(d.variables[name])
+            if a.ndim >= 3:
+                a = a[:, :, order]
+            return "%s=%s" % (key, xvec(a.flatten()))
+        out += [var("ensemble", "ens"), var("threshold", "thr"), var("cdf", "cdf"), var("quantile", "qlv"), var("x", "x"),
+                var("pit", "pit")]
+        others = sorted(v for v in d.variables if v not in REGULAR_VARS)
+        out.append("other=%s" % (",".join(others) if others else "none"))
+        for v in others:
+            a = _arr(d.variables[v])
+            out.append("o.%s=%s" % (v, xvec((a[:, :, order] if a.ndim >= 3 else a).flatten())))
+        for att in ("x0", "x1"):
+            out.append("%s=%s" % (att, xr(float(getattr(d, att))) if hasattr(d, att) else "none"))
+        return " ".join(out)
+    finally:
+        d.close()
+
+
+def _impl_pres(a):
+    k = a[1]
+    nopt = PRES_NOPT[k]
+    f = RF(a[2 + nopt:2 + nopt + NRFILE])
+    _COUNTER[0] += 1
+    ipath = os.path.join(_tmpdir(), "rin%d.nc" % _COUNTER[0])
+    opath = os.path.join(_tmpdir(), "rout%d.nc" % _COUNTER[0])
+    _write_rich(ipath, f)
+    try:
+        try:
+            if k == "acc":
+                argv = [ipath, opath, "-x", a[2]]
+                if a[3] != "-":
+                    argv += ["-w", a[3]]
+                if a[4] == "1":
+                    argv.append("-i")
+                _run("accumulate", argv)
+            elif k == "win":
+                _run("window", [ipath, opath, "-r", _dec(common.from_xr(a[3])), "-b", a[2]])
+            elif k == "e2p":
+                argv = [ipath, opath]
+                if a[2] != "-":
+                    argv.append("-r=" + _rlist(a[2]))
+                if a[3] != "-":
+                    argv.append("-q=" + _numlist(a[3]))
+                if a[4] == "1":
+                    argv.append("-p")
+                _run("ens2prob", argv)
+            elif k == "exp":
+                argv = [ipath, "-o", opath]
+                if a[2] != "def":
+                    argv.append("-i=" + _numlist(a[2]))
+                if a[3] != "-":
+                    argv.append("-lt=" + _numlist(a[3]))
+                if a[4] != "-":
+                    argv.append("-t=" + _numlist(a[4]))
+                if a[5] != "-":
+                    argv.append("-q=" + _numlist(a[5]))
+                _run("expandverif", argv)
+            else:
+                raise ValueError(" ".join(a[:3]))
+            return _read_rich(opath)
+        except SystemExit:
+            return "ERR"          # verif.util.error (status 1) or argparse's usage message (status 2)
+    finally:
+        _cleanup(ipath, opath)
 
 
 # ------------------------------------------------------------------ generators
@@ -490,6 +656,68 @@ def _order_ops():
     for j, thr in enumerate([[6.0, 4.0, 2.0, 0.0], [5.0, 4.0, 3.0, 2.0, 1.0], [2.0, 0.0, -2.0], [5.0, 1.0, 5.0, 3.0],
                              [3.0, 3.0, 1.0], [4.5, 2.25, 7.0, 0.5], [9.0, 4.0], [10.0, 1.0, 5.0, 2.0, 4.0, 3.0]]):
         yield "e2p.order", " ".join(["e2p", xvec(thr), "-", str(j % 2)] + file(FMTS[j % 4]))
+
+
+def _gen_rich(rng, stress=False):
+    """RFILE tokens: a NetCDF file with any subset of pit, stored cdf / x, other fields, ensemble, x0 / x1; `stress`:
+    station id 100000, latitude 60.123, units with dollar signs, times beyond 2^31 (stored as f8)"""
+    M = rng.choice([0, 0, 2, 3, 4])
+    file = _gen_file(rng, fmt="nc", M=M, T=rng.choice([1, 2, 3]), L=rng.choice([1, 2, 3, 4]), S=rng.choice([1, 2]))
+    T, L, S = len(file[3].split(",")), len(file[4].split(",")), len(file[5].split(","))
+    n = T * L * S
+    tfmt = "i4"
+    if stress:
+        ids = from_xvec(file[5])
+        ids[-1] = 100000.0
+        file[5] = xvec(ids)
+        lats = from_xvec(file[6])
+        lats[0] = 60.123
+        file[6] = xvec(lats)
+        if rng.random() < 0.5:
+            file[2] = rng.choice(["$m^2$", "$^oC$"])
+        if rng.random() < 0.6:
+            t0 = 2 ** 31 + rng.choice([-7200, 3600, 86400 * 400])      # around and after 2038-01-19 03:14:08
+            file[3] = ",".join(str(t0 + i * 3600) for i in range(T))
+            tfmt = "f8"
+    pit = xvec([rng.randint(0, 4) / 4.0 for _ in range(n)]) if rng.random() < 0.5 else "none"
+    thr = sorted(rng.sample([0.0, 0.5, 1.0, 2.0, 5.0], rng.choice([0, 0, 1, 2])))
+    cdf = xvec([rng.randint(0, 4) / 4.0 for _ in range(n * len(thr))]) if thr else "-"
+    qlv = sorted(rng.sample([0.1, 0.25, 0.5, 0.75, 0.9], rng.choice([0, 0, 1, 2])))
+    x = xvec(_values(rng, n * len(qlv), 0.1)) if qlv else "-"
+    other = ";".join("%s:%s" % (nm, xvec(_values(rng, n, 0.1))) for nm in sorted(rng.sample(["spread", "ctrl", "wetbulb"], rng.choice([0, 0, 1, 2]))))
+    x0 = rng.choice(["-", "-", "0", "1/2"])
+    x1 = rng.choice(["-", "-", "8", "100"])
+    return file + [pit, xvec(thr), cdf, xvec(qlv), x, other or "-", x0, x1, tfmt]
+
+
+def _gen_pres(rng, quick):
+    """the four scripts on rich files (what is carried over), plus the option edge cases of the audit"""
+    for i in range(50 if quick else 500):
+        rf = _gen_rich(rng, stress=(i % 5 == 0))
+        T, L = len(rf[3].split(",")), len(rf[4].split(","))
+        k = i % 4
+        if k == 0:
+            axis = rng.choice(["leadtime", "time"])
+            nax = L if axis == "leadtime" else T
+            yield "pres.acc", " ".join(["pres", "acc", axis, rng.choice(["-"] + [str(w) for w in range(1, nax + 1)]), str(rng.randint(0, 1))] + rf)
+        elif k == 1:
+            yield "pres.win", " ".join(["pres", "win", rng.choice(["below=", "below", "above", "above="]), xr(rng.choice([0.0, 0.5, 1.0, 2.0]))] + rf)
+        elif k == 2:
+            M = int(rf[11])
+            if M == 0:
+                rf = _gen_rich(rng, stress=(i % 5 == 0))
+                if int(rf[11]) == 0:
+                    continue
+                M = int(rf[11])
+            thr = sorted(rng.sample([0.0, 0.5, 1.0, 2.0, 5.0], rng.choice([0, 1, 2])))
+            qs = [q for q in sorted(rng.sample([0.0, 0.25, 0.5, 0.75, 1.0], rng.choice([0, 1, 2]))) if _q_in_domain(q, M)]
+            p = rng.randint(0, 1) if (thr or qs) else 1
+            yield "pres.e2p", " ".join(["pres", "e2p", xvec(thr), xvec(qs), str(p)] + rf)
+        else:
+            leads = from_xvec(rf[4])
+            ol = sorted(rng.sample(sorted(set(leads + [0.0, 6.0, 24.0])), rng.randint(1, 3)))
+            yield "pres.exp", " ".join(["pres", "exp", rng.choice(["def", "0", "0,12"]), xvec(ol) if rng.random() > 0.08 else "-",
+                                        rng.choice(["-", "-", "1,2"]), rng.choice(["-", "-", "1/2"])] + rf)
 
 
 QLEVELS = [0.0, 0.05, 0.1, 0.2, 0.25, 0.3, 0.4, 0.5, 0.6, 0.7, 0.75, 0.8, 0.9, 0.95, 0.99, 1.0]
@@ -625,6 +853,21 @@ def gen_ops(tier, rng):
         if i % 5 == 0 and thr:
             thr.insert(rng.randrange(len(thr) + 1), rng.choice(thr))      # a threshold typed twice
         yield "e2p.order", " ".join(["e2p", xvec(thr), xvec(qs), str(rng.randint(0, 1))] + file)
+    # ---- ens2prob on a file that has an ensemble but lacks obs, fcst or both (with -p and no obs: error message)
+    for i in range(8 if quick else 40):
+        M = rng.choice([2, 3, 4])
+        need = [("fcst",), (), ("fcst",), ("obs",)][i % 4]
+        file = _gen_file(rng, M=M, T=rng.choice([1, 2]), L=rng.choice([1, 2, 3]), S=rng.choice([1, 2]), need=need,
+                         text_ok=bool(need))
+        qs = [q for q in [0.0, 0.5, 1.0] if _q_in_domain(q, M)]
+        yield "e2p.nofield", " ".join(["e2p", xvec([0.5, 2.0]), xvec(qs), str(1 if i % 3 == 0 else 0)] + file)
+    # ---- accumulate -w 0 / negative: an error message, not an unaccumulated copy
+    for i in range(4 if quick else 12):
+        file = _gen_file(rng)
+        yield "acc.badw", " ".join(["acc", rng.choice(["leadtime", "time"]), rng.choice(["0", "-1", "-3"]), str(i % 2)] + file)
+    # ---- what the scripts carry over from a file that holds more than obs and fcst
+    for item in _gen_pres(rng, quick):
+        yield item
 
 
 # ------------------------------------------------------------------ oracle (plain Python, exact)
@@ -843,6 +1086,117 @@ def _judge_win(a, f, r):
     return None
 
 
+def _f32list(tok):
+    return [float(F32(v)) if v == v else v for v in from_xvec(tok)]
+
+
+def _same_list(tok_got, want_vals):
+    if tok_got is None or tok_got == "none":
+        return False
+    got = from_xvec(tok_got)
+    want = [float(F32(v)) if v == v else v for v in want_vals]
+    return len(got) == len(want) and all((g != g and w != w) or float(F32(g)) == w for g, w in zip(got, want))
+
+
+def _judge_pres(a, impl_out):
+    """`All of them preserve times, lead times, location metadata and the fields they do not transform`, on a file that
+    holds everything a verif file can hold.  Order of the tests: metadata, the x0 / x1 attributes, then every field the
+    script does not transform (ensemble, stored pit / cdf / x, other fields), then the transformation itself."""
+    k = a[1]
+    script = {"acc": "accumulate", "win": "window", "e2p": "ens2prob", "exp": "expandverif"}[k]
+    nopt = PRES_NOPT[k]
+    opts = a[2:2 + nopt]
+    f = RF(a[2 + nopt:2 + nopt + NRFILE])
+    T, L, S = f.shape
+    if impl_out.startswith("EXC:") or impl_out.startswith("EXIT:"):
+        return ({"script": script, "kind": "exception", "exc": impl_out}, "%s ended in %s on %s" % (script, impl_out, " ".join(a)[:300]))
+    if impl_out.startswith("ERR"):
+        if k == "acc" and opts[1] != "-" and (int(opts[1]) < 1 or int(opts[1]) > (L if opts[0] == "leadtime" else T)):
+            return None              # documented errors: window shorter than one step or longer than the axis
+        if k == "exp" and opts[1] == "-":
+            return None              # -lt is a required option
+        if k == "e2p" and opts[2] == "1" and f.obs is None:
+            return None
+        return ({"script": script, "kind": "error-exit"}, "%s stopped with an error on %s" % (script, " ".join(a)[:300]))
+    if k == "acc" and opts[1] != "-" and int(opts[1]) < 1:
+        return ({"script": script, "kind": "bad-window-accepted"}, "accumulate -w %s wrote a file" % opts[1])
+    r = _parse_reply(impl_out)
+    # --- metadata (location metadata is stored as f4: compared after rounding)
+    for key, want in (("name", f.name), ("units", f.units.replace("$", ""))):
+        if r.get(key) != want:
+            return ({"script": script, "kind": "preserve", "what": key}, "%s does not preserve %s: input %s, output %s" % (script, key, want, r.get(key)))
+    for key, vals in (("ids", f.ids), ("lats", f.lats), ("lons", f.lons), ("elevs", f.elevs)):
+        order = np.argsort(f.ids, kind="stable")
+        if not _same_list(r.get(key), [vals[i] for i in order]):
+            return ({"script": script, "kind": "preserve", "what": key},
+                    "%s does not preserve %s: input %s, output %s" % (script, key, xvec(vals), r.get(key)))
+    if k != "exp":
+        if r.get("times") != ",".join(str(t) for t in f.times):
+            return ({"script": script, "kind": "preserve", "what": "times", "after2038": max(f.times) > 2 ** 31 - 1},
+                    "%s does not preserve the times: input %s, output %s" % (script, f.times, r.get("times")))
+        if not _same_list(r.get("leads"), f.leads):
+            return ({"script": script, "kind": "preserve", "what": "leads"}, "%s: lead times %s -> %s" % (script, xvec(f.leads), r.get("leads")))
+    else:
+        inits = [Fraction(0)] if opts[0] == "def" else [Fraction(x) for x in from_xvec(opts[0])]
+        days = sorted(set((t // 86400) * 86400 for t in f.times))
+        want_times = sorted(int(d + h * 3600) for h in inits for d in days)
+        if sorted(int(x) for x in r["times"].split(",")) != want_times:
+            return ({"script": script, "kind": "times", "after2038": max(want_times) > 2 ** 31 - 1},
+                    "expandverif: output times %s, expected %s" % (r["times"], want_times))
+    for att, val in (("x0", f.x0), ("x1", f.x1)):
+        want = "none" if val is None else xr(val)
+        if r.get(att) != want:
+            return ({"script": script, "kind": "attribute-dropped", "what": att},
+                    "%s does not preserve the attribute %s (discrete mass of the variable): input %s, output %s" % (script, att, want, r.get(att)))
+    # --- the transformation itself and obs / fcst
+    base = " ".join(t for t in impl_out.split(" ") if t.split("=")[0] in ("name", "units", "times", "leads", "ids", "lats", "lons", "elevs", "obs", "fcst", "thr", "cdf", "qlv", "x", "pit"))
+    rb = _parse_reply(base)
+    if k == "acc":
+        bad = _judge_acc(["acc"] + opts, f, rb)
+    elif k == "win":
+        bad = _judge_win(["win"] + opts, f, rb)
+    elif k == "e2p":
+        bad = _judge_e2p(["e2p"] + opts, f, rb)
+    else:
+        bad = _judge_exp(["exp"] + opts[:2], f, rb)
+    if bad:
+        return bad
+    # --- fields the script does not transform
+    recomputed = set()
+    if k == "e2p":
+        if opts[0] != "-":
+            recomputed.add("cdf")
+        if opts[1] != "-":
+            recomputed.add("x")
+        if opts[2] == "1":
+            recomputed.add("pit")
+    if k == "exp":
+        # the (time, lead time) grid changes: a field cannot be carried over unchanged; what the script announces by
+        # creating a variable it must also write
+        for key, coord, opt in (("cdf", "thr", opts[2]), ("x", "qlv", opts[3])):
+            if opt != "-" and r.get(key) not in (None, "none") and all(t == "nan" for t in r[key].split(",")):
+                return ({"script": script, "kind": "variable-never-written", "what": key},
+                        "expandverif -%s %s creates the variable %s and never writes it (all missing)" % ("t" if key == "cdf" else "q", opt, key))
+        if f.fcst is not None and not np.all(np.isnan(f.fcst)) and all(t == "nan" for t in r.get("fcst", "nan").split(",")):
+            return ({"script": script, "kind": "variable-never-written", "what": "fcst"},
+                    "expandverif creates the variable fcst and never writes it although the input has forecasts")
+        for key, present in (("ens", f.M > 0), ("pit", f.pit is not None), ("other", bool(f.other))):
+            if present and r.get(key) == "none":
+                return ({"script": script, "kind": "field-dropped", "what": key}, "expandverif drops %s" % key)
+        return None
+    checks = [("ens", f.M > 0, lambda: f.ens.flatten()), ("pit", f.pit is not None, lambda: f.pit.flatten()),
+              ("cdf", f.cdf is not None, lambda: f.cdf.flatten()), ("x", f.x is not None, lambda: f.x.flatten())]
+    for key, present, vals in checks:
+        if present and key not in recomputed and not _same_list(r.get(key), vals()):
+            return ({"script": script, "kind": "field-dropped", "what": key},
+                    "%s does not carry over %s, a field it does not transform: output has %s" % (script, key, (r.get(key) or "none")[:80]))
+    for nm, arr in sorted(f.other.items()):
+        if not _same_list(r.get("o." + nm), arr.flatten()):
+            return ({"script": script, "kind": "field-dropped", "what": "other"},
+                    "%s does not carry over the field %s: output has %s" % (script, nm, (r.get("o." + nm) or "none")[:80]))
+    return None
+
+
 def spec_op(op):
     a = op.split(" ")
     if a[0] == "accumulate":
@@ -907,7 +1261,9 @@ def judge(op, impl_out, spec_out):
     k = a[0]
     script = {"acc": "accumulate", "accumulate": "accumulate", "win": "window", "window": "window", "e2p": "ens2prob",
               "ens_cdf": "ens2prob", "ens_q": "ens2prob", "ens_pit": "ens2prob", "exp": "expandverif",
-              "expand1": "expandverif", "t2n": "text2nc"}[k]
+              "expand1": "expandverif", "t2n": "text2nc", "pres": "pres"}[k]
+    if k == "pres":
+        return _judge_pres(a, impl_out)
     if impl_out.startswith("EXC:") or impl_out.startswith("EXIT:"):
         sig = {"script": script, "kind": "exception", "exc": impl_out}
         if k in ("acc", "win"):
@@ -930,6 +1286,14 @@ def judge(op, impl_out, spec_out):
         return None
     nopt = {"acc": 4, "win": 3, "e2p": 4, "exp": 3, "t2n": 1}[k]
     f = VF(a[nopt:nopt + NFILE])
+    if k == "acc" and a[2] != "-" and int(a[2]) < 1:
+        if impl_out == "ERR":
+            return None              # a window of less than one step: error message
+        return ({"script": script, "kind": "bad-window-accepted"}, "accumulate -w %s wrote a file instead of reporting an error" % a[2])
+    if k == "e2p" and a[3] == "1" and f.obs is None:
+        if impl_out == "ERR":
+            return None              # -p needs observations: error message
+        return ({"script": script, "kind": "pit-without-obs"}, "ens2prob -p on a file without obs wrote a file")
     if impl_out == "ERR":
         if k == "acc" and a[2] != "-" and int(a[2]) > (f.shape[1] if a[1] == "leadtime" else f.shape[0]):
             return None              # documented error: window longer than the axis
@@ -959,7 +1323,7 @@ def nontrivial(op, out):
     if out.startswith("E"):
         return False
     k = op.split(" ")[0]
-    key = {"acc": "obs", "win": "obs", "exp": "obs", "t2n": "obs"}.get(k)
+    key = {"acc": "obs", "win": "obs", "exp": "obs", "t2n": "obs", "pres": "obs"}.get(k)
     if key:
         v = _field(out, key) or ""
         return any(t not in ("nan", "none", "") for t in v.split(","))
